@@ -315,6 +315,8 @@ def stage_oracle_quote(rep, rng, strings, lists, n):
         for k, v in got.items():
             if v != args:
                 bad += 1
+                if bad > 25:        # enough replay files; keep counting
+                    break
                 rep.fail('arguments %r are written as %r, which %s reads back as %r' % (args, line, k, v),
                          {'args': args, 'written': line, 'reader': str(k), 'delivered': v,
                           'replay_hint': 'from bfg9000.shell import windows as w; w.join(ARGS); w.split(_)'},
@@ -535,8 +537,9 @@ def stage_uuid(rep, rng, n_hist):
             fail = check_history_property(runs, results)
             if fail:
                 bad += 1
-                rep.fail('MSBuild solution history violates the property: ' + fail[0],
-                         {'history': {'pre': pre, 'runs': runs, 'fresh': fresh}, 'results': results}, classes=fail[1])
+                if bad <= 25:
+                    rep.fail('MSBuild solution history violates the property: ' + fail[0],
+                             {'history': {'pre': pre, 'runs': runs, 'fresh': fresh}, 'results': results}, classes=fail[1])
             if h < 2:
                 rep.sample({'stage': 'uuid', 'pre': pre, 'runs': runs[:2], 'results': results[:2]})
     finally:
